@@ -123,9 +123,19 @@ class Collector:
             else:
                 unconfirmed.append(dict(fingerprint=fp, what=c["what"], case=c["case"], native=r))
         validated, mismatches = 0, []
+        seen_fp = {c["fingerprint"] for c in confirmed}
         for case, digest in self.witness:
             r = nat.call(self.hname, case, limit)
-            if r.get("digest") == json.loads(json.dumps(digest, default=str)) and not r.get("violations"):
+            if r.get("violations"):
+                # the oracle evaluated on the REAL code for this concrete witness reports a violation that the
+                # symbolic run could not see (parts of some properties are decided natively, e.g. the two
+                # formatters run in C code): a confirmed violation, not an engine disagreement
+                for fp, what in r["violations"]:
+                    if fp not in seen_fp:
+                        seen_fp.add(fp)
+                        confirmed.append(dict(fingerprint=fp, what=what, case=case, count=1))
+                continue
+            if r.get("digest") == json.loads(json.dumps(digest, default=str)):
                 validated += 1
             else:
                 mismatches.append(dict(case=case, symbolic=digest, native=r))
